@@ -136,6 +136,7 @@ Definition oracle_c04 (code : Z) (ps : list Z) (vs outs : list (list Z)) : Z :=
   | 4003 | 4004 | 4005 | 4006 => oracle_ext_mat code ps vs
   | 4010 | 4011 | 4012 => oracle_cmux code ps vs outs
   | 4020 => oracle_cells_fresh ps vs
+  | 4023 => tensor_rows_ok ps vs
   | 4021 | 4022 | 4030 | 4031 | 4032 | 4033 => oracle_cells_derived code ps vs
   | _ => 2
   end.
